@@ -127,6 +127,13 @@ def check_perm(case, ctx: Ctx):
         ld = _mk_layout(ctx, coords[:-1], C)
         if ld == la or ld.static_hash() == la.static_hash():
             ctx.fail(C, "eq_too_weak", "layout equals a strict subset")
+    # ... nor may a set that differs by more than the 1e-6 um precision (one trap moved by 2e-5 um)
+    moved = [list(p_) for p_ in coords]
+    moved[0][0] += 2e-5
+    if len({tuple(np.round(np.array(p_, dtype=float), 6)) for p_ in moved}) == len(moved):
+        lm = _mk_layout(ctx, moved, C)
+        if lm == la or la == lm or lm.static_hash() == la.static_hash():
+            ctx.fail(C, "eq_too_weak:nearby_set", f"a trap moved by 2e-5 um: layouts still equal ({coords[0]})")
     # the numbering depends only on the coordinates the layout was made from: scratch work on
     # arrays it hands out (centring for a plot, scaling) is not a change of the layout
     h0 = la.static_hash()
